@@ -119,6 +119,7 @@ Section Genesis.
   Variable cons_valid : CONS -> bool.                (* ValidateBasic() == nil *)
   Variable rel_unmarshal : bytes -> option relayer.  (* cdc.MustUnmarshal(bz, &IdentifiedRelayer) *)
   Variable rel_marshal : relayer -> bytes.
+  Variable acc_addr_ok : bytes -> bool.              (* sdk.AccAddressFromBech32(s) returns no error *)
   Variable tp_unmarshal : bytes -> option token_pair.
   Variable tp_marshal : token_pair -> bytes.
   Variable sha256 : bytes -> bytes.                  (* tmhash.Sum *)
@@ -264,9 +265,11 @@ Section Genesis.
     (* SetChainName *)
     ++ [(chain_name_key, g_native g)].
 
-  (** [prefix.Store.Set] panics on an empty key ([types.AssertValidKey]) *)
+  (** [prefix.Store.Set] panics on an empty key ([types.AssertValidKey]): a metadata entry with an empty key
+      (SetAllClientMetadata), a relayer with an empty address (RegisterRelayers: the key is the address) *)
   Definition client_import_panics (g : client_genesis) : bool :=
-    existsb (fun igm => existsb (fun md => is_nil (fst md)) (snd igm)) (g_metadata g).
+    existsb (fun igm => existsb (fun md => is_nil (fst md)) (snd igm)) (g_metadata g)
+    || existsb (fun r => is_nil (r_address r)) (g_relayers g).
 
   (** * xibc packet sub-module *)
   Definition triple_of (p : packet_state) : triple := {| t_src := ps_src p; t_dst := ps_dst p; t_seq := ps_seq p |}.
@@ -324,6 +327,12 @@ Section Genesis.
                      end
     end.
 
+  (** [IdentifiedRelayer.Validate] (the stateless checks of RegisterRelayerProposal.ValidateBasic) *)
+  Definition relayer_valid (r : relayer) : bool :=
+    acc_addr_ok (r_address r)
+    && negb (is_nil (r_addresses r)) && Nat.eqb (length (r_addresses r)) (length (r_chains r))
+    && forallb valid_chain_name (r_chains r).
+
   Definition validate_client (g : client_genesis) : bool :=
     forallb (fun nc => valid_chain_name (fst nc) && cs_valid (snd nc)) (g_clients g)
     && forallb (fun ncs =>
@@ -338,6 +347,7 @@ Section Genesis.
          | None => false
          | Some _ => forallb (fun md => negb (is_nil (fst md)) && negb (is_nil (snd md))) (snd igm)
          end) (g_metadata g)
+    && forallb relayer_valid (g_relayers g)
     && valid_chain_name (g_native g).
 
   (** [validateGenFields]; [PacketState.Validate]: Data == nil is an error (the model identifies nil and empty) *)
@@ -488,7 +498,7 @@ Section Genesis.
     else if bytes_eqb k chain_name_key then true
     else if is_prefix clienttypes_KeyRelayers k then
       match rel_unmarshal v with
-      | Some r => bytes_eqb k (relayer_key (r_address r)) && bytes_eqb (rel_marshal r) v
+      | Some r => bytes_eqb k (relayer_key (r_address r)) && bytes_eqb (rel_marshal r) v && negb (is_nil (r_address r))
       | None => false
       end
     else if is_prefix host_KeyPacketAckPrefix k then wf_packet_key packet_ack_key k
@@ -567,7 +577,8 @@ Section Genesis.
     let (k, v) := kv in
     if is_prefix host_KeyClientStorePrefix k then valid_client_entry s k v
     else if bytes_eqb k chain_name_key then valid_chain_name v
-    else if is_prefix clienttypes_KeyRelayers k then true
+    else if is_prefix clienttypes_KeyRelayers k then
+      match rel_unmarshal v with Some r => relayer_valid r | None => false end
     else if is_prefix host_KeyPacketAckPrefix k then valid_packet_entry k v true
     else if is_prefix host_KeyPacketCommitmentPrefix k then valid_packet_entry k v true
     else if is_prefix host_KeyPacketReceiptPrefix k then valid_packet_entry k v true
